@@ -1,7 +1,131 @@
-/- Driver entry for property C12: one request payload in, one canonical response line out. -/
-import Molli.Util.Basic
-namespace Molli.Driver.C12
+/-
+Driver entry for property C12 (join model).  Numbers are tokens of `Molli.Util.RatIO`.
 
-def handle (_payload : String) : String := "err:not-implemented"
+fragment  F := n id×n  m (a1 a2 data)×m  charge mult          (ids / data: tokens without blanks or commas)
+override    := `-` (None) | integer
+
+  join    <shipped|repaired> F_A F_B i1 i2 newdata charge? mult?
+          → `ok atoms=<id,…> bonds=<a1-a2:data,…> charge=<q> mult=<m> new=<r1>-<r2>` | `err:assert`
+  coords  <shipped|repaired> nA ca(3nA) nB cb(3nB) i1 i2 n1 n2 v1n(3) v2n(3) d tol n rv(3) k (s c)×k
+          → k = 0: `c <coords>` (no rotamer scan);  k > 0: the k candidate results of the scan, `c … | c … | …`
+  spec    nA ca nB cb i1 i2 n1 n2 res(3(nA+nB−2)) d tol
+          exact spec predicates on the floats the real join returned:
+          → `shape= partA= rigidB= anchor= len= dir=`
+  combine <shipped|repaired> F_core k aps(k) newdata ns (F_sub ap)×ns
+          → like `join`, for the whole loop of `_ml_assemble` | `err:index` | `err:assert`
+-/
+import Molli.Util.RatIO
+import Molli.Model.Join
+import Molli.Driver.C11
+namespace Molli.Driver.C12
+open Molli.Util Molli.Model.Geom Molli.Model.Join
+open Molli.Driver.C11 (P tok num nat vec mat rep variant done showV showC bit within)
+
+structure F where
+  atoms : List String
+  bonds : List (Bond String)
+  charge : Int
+  mult : Int
+
+def int : P Int := do
+  let t ← tok
+  match t.toInt? with
+  | some i => pure i
+  | none => failure
+
+def bond : P (Bond String) := do
+  let a ← nat; let b ← nat; let d ← tok
+  pure ⟨a, b, d⟩
+
+def frag : P F := do
+  let n ← nat; let atoms ← rep tok n
+  let m ← nat; let bonds ← rep bond m
+  let q ← int; let mu ← int
+  pure ⟨atoms, bonds, q, mu⟩
+
+def override : P (Option Int) := do
+  let t ← tok
+  if t == "-" then pure none else
+    match t.toInt? with
+    | some i => pure (some i)
+    | none => failure
+
+def showTopo (t : Topo String String) : String :=
+  let bs := t.bonds.map (fun b => s!"{b.a1}-{b.a2}:{b.data}")
+  s!"ok atoms={",".intercalate t.atoms} bonds={",".intercalate bs} charge={t.charge} mult={t.mult} new={t.r1}-{t.r2}"
+
+def scPair : P (Rat × Rat) := do
+  let s ← num; let c ← num
+  pure (s, c)
+
+def sub : P (Sub String String) := do
+  let f ← frag; let ap ← nat
+  pure ⟨f.atoms, f.bonds, f.charge, f.mult, ap⟩
+
+def allQuads (k : Nat) : List (Nat × Nat × Nat × Nat) := Molli.Driver.C11.quads k
+
+def run : String → P String
+  | "join" => do
+    let v ← variant; let fa ← frag; let fb ← frag; let i1 ← nat; let i2 ← nat; let nd ← tok
+    let c ← override; let m ← override; done
+    match joinTopo v fa.atoms fa.bonds fa.charge fa.mult fb.atoms fb.bonds fb.charge fb.mult i1 i2 nd c m with
+    | some t => pure (showTopo t)
+    | none => pure "err:assert"
+  | "coords" => do
+    let v ← variant
+    let na ← nat; let ca ← rep vec na; let nb ← nat; let cb ← rep vec nb
+    let i1 ← nat; let i2 ← nat; let n1 ← nat; let n2 ← nat
+    let v1n ← vec; let v2n ← vec; let d ← num; let tol ← num; let n ← num; let rv ← vec
+    let k ← nat; let scs ← rep scPair k; done
+    match ca[n1]?, cb[n2]? with
+    | some r1, some r2 =>
+      if n == 0 then pure "err:degenerate" else
+      if k == 0 then pure (showC (joinCoords v ca cb i1 i2 r1 r2 v1n v2n d tol n rv none))
+      else pure (" | ".intercalate (scs.map (fun sc => showC (joinCoords v ca cb i1 i2 r1 r2 v1n v2n d tol n rv (some sc)))))
+    | _, _ => pure "err:index"
+  | "spec" => do
+    let na ← nat; let ca ← rep vec na; let nb ← nat; let cb ← rep vec nb
+    let i1 ← nat; let i2 ← nat; let n1 ← nat; let n2 ← nat
+    let res ← rep vec (na + nb - 2); let d ← num; let tol ← num; done
+    match ca[n1]?, cb[n2]?, ca[i1]? with
+    | some r1, some _, some ap1 =>
+      let z : V3 Rat := V3.zero
+      let expA := (ca.eraseIdx i1).map (fun p => p.sub r1)
+      let gotA := res.take (na - 1)
+      let gotB := res.drop (na - 1)
+      let oldB := cb.eraseIdx i2
+      let partA := gotA.length == expA.length && (List.zip gotA expA).all (fun pq =>
+        within pq.1.x pq.2.x tol && within pq.1.y pq.2.y tol && within pq.1.z pq.2.z tol)
+      let kb := oldB.length
+      let distB := gotB.length == kb && (List.range kb).all (fun i => (List.range kb).all (fun j =>
+        i ≥ j || within (dist2 (oldB.getD i z) (oldB.getD j z)) (dist2 (gotB.getD i z) (gotB.getD j z)) tol))
+      let chirB := (allQuads kb).all (fun q =>
+        let (i, j, l, m) := q
+        within (triple (oldB.getD i z) (oldB.getD j z) (oldB.getD l z) (oldB.getD m z))
+               (triple (gotB.getD i z) (gotB.getD j z) (gotB.getD l z) (gotB.getD m z)) tol)
+      let p := res.getD (reidx i1 n1) z
+      let q := res.getD (na - 1 + reidx i2 n2) z
+      let anchor := within p.x 0 tol && within p.y 0 tol && within p.z 0 tol
+      let bv := q.sub p
+      let len := within (bv.dot bv) (d * d) (tol * (1 + d * d))
+      let dir := Molli.Driver.C11.sameDir bv (ap1.sub r1) tol
+      pure s!"shape={bit (res.length == na + nb - 2)} partA={bit partA} rigidB={bit (distB && chirB)} anchor={bit anchor} len={bit len} dir={bit dir}"
+    | _, _, _ => pure "err:index"
+  | "combine" => do
+    let v ← variant; let core ← frag; let k ← nat; let aps ← rep nat k; let nd ← tok
+    let ns ← nat; let subs ← rep sub ns; done
+    let start : Topo String String := ⟨core.atoms, core.bonds, core.charge, core.mult, 0, 0⟩
+    match assemble v .repaired aps nd 0 start subs with
+    | some t => pure (showTopo t)
+    | none => pure "err:join"
+  | _ => failure
+
+def handle (payload : String) : String :=
+  match words payload with
+  | [] => "err:bad-request"
+  | op :: rest =>
+    match (run op).run rest with
+    | some (out, _) => out
+    | none => "err:bad-request"
 
 end Molli.Driver.C12
